@@ -235,3 +235,19 @@ PROPS["C14"] = {
         {"name": "TestProp_C14_Recv", "quick": {"shards": 4, "checks": 250, "timeout": 500}, "thorough": {"shards": 8, "checks": 6000, "timeout": 3000}},
     ],
 }
+
+PROPS["C17"] = {
+    "level": "exploration",
+    "technique": "property-based testing (rapid) of round-trip and parse-idempotence laws, run inside the package (injected with go test -overlay, /repo untouched) so that unexported (de)serialisers are reached; plus public Append*/Extract*, key wire form, fingerprint input and libotr key-file round trips",
+    "level_text": "parse(serialize(v)) == v for every protocol structure and key with generated field lengths (empty, maximal TLV value 65535, leading-zero byte fields, zero and boundary integers) and parse(serialize(parse(b))) == parse(b) for arbitrary accepted bytes; emitted MPIs minimal, emitted lengths equal contents",
+    "level_note": "couples to unexported names: a rename makes the check inconclusive (build failure -> exit 2), never a false violation",
+    "rule": ("structures: dhCommit, dhKey, revealSig, sig (v2/v3), dataMsg (flag, ids, y, counter, ciphertext, MAC, 0-4 disclosed keys; re-serialisation byte-equal), plainDataMsg (NUL-free text, 0-4 TLVs incl. empty and 65535-byte values), tlv, SMP 1/1Q/2/3/4 <-> TLV (count field, question), Append*/Extract* chains; "
+             "keys: pool keys and arbitrary parameter values through Serialize/Parse/ParsePrivateKey/ParsePublicKey, fingerprint == SHA-1 of the encoding without type field, key files with 0-3 accounts whose names use any character a quoted string can hold (backslash, tab, parentheses, #, ;, non-ASCII, empty) and symbol protocols; "
+             "idempotence: random bytes, valid encodings, single-byte mutations, trailing bytes / zero first content byte, for dhCommit, dhKey, dataMsg, tlv, plainDataMsg, public key, MPI lists, SMP4. Non-trivial: a value with an empty/boundary field, a special account name, or an input the parser accepted."),
+    "assumptions": ["in-package test compiled with the repository's own go.mod plus rapid; the DSA key pool of the harness is read from VERIF_KEYS"],
+    "tests": [
+        {"name": "TestProp_C17_Structs", "build": "inpkg", "quick": {"shards": 4, "checks": 1500, "timeout": 500}, "thorough": {"shards": 8, "checks": 40000, "timeout": 3000}},
+        {"name": "TestProp_C17_Keys", "build": "inpkg", "quick": {"shards": 2, "checks": 300, "timeout": 500}, "thorough": {"shards": 4, "checks": 6000, "timeout": 3000}},
+        {"name": "TestProp_C17_Idempotent", "build": "inpkg", "quick": {"shards": 4, "checks": 2500, "timeout": 500}, "thorough": {"shards": 8, "checks": 60000, "timeout": 3000}},
+    ],
+}
